@@ -207,7 +207,7 @@ _MAPPER_RULE = ("explicit-state breadth-first search over call histories on the 
                 "per state (map_to_with_table_flags/map_to/identity_map x 3 sizes x frames x leaf flags (incl. one value with every flag bit but HUGE_PAGE) x 4 parent-flag values (two of them incomparable) x 5 allocator failure schedules, unmap, "
                 "update_flags, set_flags_p4/p3/p2_entry, clean_up, clean_up_addr_range x 12 ranges); bounds are unions of (depth, deviation) pairs, a deviation "
                 "being one non-default argument; 31 configurations (implementation x physical base x allocator policy x page alphabet A nesting / B edges / C related indices / W 21 siblings per parent) in the overflow-checking profile plus 5 of them rebuilt without overflow checks / debug assertions. "
-                "After every transition: outcome class vs the abstract model R1 (Appendix A of DESIGN.md), full hardware-style traversal R2 of raw memory == R1, "
+                "Beyond the bound: in every state reached by a call that released frames, one more map of each page with an exhausted allocator (result discarded); identity_map of frames whose address is not a canonical virtual address; for alphabet W the wide histories (1..=21 sibling tables created, emptied and cleaned up in one call). " "After every transition: outcome class vs the abstract model R1 (Appendix A of DESIGN.md), full hardware-style traversal R2 of raw memory == R1, "
                 "parent-entry flags, allocation/deallocation logs, access monitor; in every new state: translate/translate_addr/translate_page on the probe addresses == R1 == single-address hardware walk.")
 
 def _mapper_prop(extra_rule, assumptions):
